@@ -38,10 +38,11 @@ class C17(Prop):
         multi = {}; single = {}
         for l in p.stdout.split('\n'):
             w = l.split()
-            if len(w) == 2: multi[w[0]] = w[1]
+            if len(w) == 2 and w[0].isdigit(): multi[w[0]] = w[1]
             elif len(w) == 3 and w[0] == 'single': single[w[1]] = w[2]
         why = None
-        if 'ThreadSanitizer' in p.stderr: why = 'ThreadSanitizer report: ' + p.stderr[:1500]
+        if 'NONREENTRANT' in p.stdout: why = 'the library called a non-reentrant, process-global libc facility from worker threads: ' + [l for l in p.stdout.split('\n') if 'NONREENTRANT' in l][0]
+        elif 'ThreadSanitizer' in p.stderr: why = 'ThreadSanitizer report: ' + p.stderr[:1500]
         elif p.returncode != 0: why = 'workload aborted rc=%d: %s' % (p.returncode, p.stderr[-800:])
         elif multi != single or len(multi) != n: why = 'a thread computed a different result than the same workload run alone: %r vs %r' % (multi, single)
         return why, multi
